@@ -73,6 +73,7 @@ type vcInput struct {
 	SyncTail bool      `json:"synctail"`  // after each schedule run the synchronous suffix (C03)
 	SyncMax  int       `json:"syncmax"`   // max rounds allowed after GST
 	ByzAfter bool      `json:"byzafter"`  // Byzantine validators keep acting during the suffix
+	RandTail int       `json:"randtail"`  // random steps appended to every TLC schedule
 }
 
 // ---------------------------------------------------------------- net
@@ -365,6 +366,8 @@ func vcNewNet(t *testing.T, in *vcInput, runID int) *vcNet {
 	}
 	z0, z0p := st.MakeBlock(1, []types.Tx{types.Tx("z0=1")}, types.NewCommit(0, 0, types.BlockID{}, nil), nil, byzProposer)
 	net.register("Z0", z0, z0p)
+	z1, z1p := st.MakeBlock(1, []types.Tx{types.Tx("z1=1")}, types.NewCommit(0, 0, types.BlockID{}, nil), nil, byzProposer)
+	net.register("Z1", z1, z1p)
 	zx, _ := st.MakeBlock(1, []types.Tx{types.Tx("zx=1")}, types.NewCommit(0, 0, types.BlockID{}, nil), nil, byzProposer)
 	zx.AppHash = []byte("verif-bad-app-hash")
 	zxp := zx.MakePartSet(types.BlockPartSizeBytes)
@@ -931,6 +934,18 @@ func TestVerifCons(t *testing.T) {
 				executed++
 			} else {
 				skipped++
+			}
+		}
+		if in.RandTail > 0 {
+			trng := rand.New(rand.NewSource(seed*1000003 + int64(s.ID)))
+			for i := 0; i < in.RandTail; i++ {
+				steps := net.enabledSteps(trng)
+				if len(steps) == 0 {
+					break
+				}
+				if net.step(w, run, steps[trng.Intn(len(steps))]) {
+					executed++
+				}
 			}
 		}
 		if in.SyncTail {
